@@ -120,9 +120,10 @@ def run_create(version, key, detach, single_hop, auth, ports_forms, entry='creat
         raised = None
         rec = None
         try:
-            if entry == 'tor':
+            if entry in ('tor', 'tor-nonanon'):
                 from txtorcon.controller import Tor
-                tor = Tor(w.reactor, impl.proto, _tor_config=impl.cfg)
+                # 'tor-nonanon': the Tor object of a Tor launched in non-anonymous mode; the service's flags still follow the request
+                tor = Tor(w.reactor, impl.proto, _tor_config=impl.cfg, _non_anonymous=(True if entry == 'tor-nonanon' else None))
                 d = tor.create_onion_service(args, private_key=kw['private_key'], version=version,
                                              single_hop=single_hop, detach=detach)
             elif auth == 'none':
@@ -385,10 +386,11 @@ def run_task(param, acc):
             for key in KEYS:
                 for detach, single_hop in itertools.product((False, True), repeat=2):
                     for pf in [(f,) for f in PORT_FORMS] + [('int', 'pair')]:
-                        r = run_create(version, key, detach, single_hop, 'none', pf, entry='tor')
-                        rec_exec(acc, ('tor', version, key, detach, single_hop, pf), r,
-                                 dict(version=version, key=key, detach=detach, single_hop=single_hop, auth='none', ports=list(pf), entry='tor', echo=False, bad=None),
-                                 cost=5 + len(pf))
+                        for entry in ('tor', 'tor-nonanon'):
+                            r = run_create(version, key, detach, single_hop, 'none', pf, entry=entry)
+                            rec_exec(acc, (entry, version, key, detach, single_hop, pf), r,
+                                     dict(version=version, key=key, detach=detach, single_hop=single_hop, auth='none', ports=list(pf), entry=entry, echo=False, bad=None),
+                                     cost=5 + len(pf) + (1 if entry != 'tor' else 0))
 
 
 def replay(p):
